@@ -12,23 +12,7 @@ import val
 
 class FactsFromRaw(Facts):
     def __init__(self, raw, path="<mutated>"):
-        self.raw = raw
-        self.path = path
-        self.config = raw.get("config")
-        self.nonce = raw.get("nonce")
-        self.adts = raw["adts"]
-        self.consts = raw["consts"]
-        self.statics = raw["statics"]
-        self.fns = {}
-        from facts import Fn
-        for name, f in raw["fns"].items():
-            self.fns[name] = Fn(self, name, f)
-        for fn in list(self.fns.values()):
-            for i, p in enumerate(fn.raw.get("promoted", [])):
-                pn = "%s::promoted[%d]" % (fn.name, i)
-                pf = dict(p)
-                pf.update(kind="promoted", parent=fn.name, file=fn.raw["file"], line=fn.raw["line"], vis=None, reachable_pub=None, def_exp=None, promoted=[])
-                fn.promoted.append(Fn(self, pn, pf))
+        Facts.__init__(self, path=path, raw=raw)
 
 
 # ---- mutation helpers (operate on raw fact dicts) ------------------------------------------
